@@ -50,7 +50,8 @@ def orientation(j1, j2):
 @st.composite
 def sampled(draw, tier):
     hi = 40 if tier == 'quick' else 400
-    arm = st.one_of(st.integers(3, 8), st.integers(3, 8), st.integers(3, hi))
+    arm = st.one_of(st.integers(3, 8), st.integers(3, 8), st.integers(3, 8), st.integers(3, hi), st.integers(3, hi),
+                    st.integers(hi, 300 if tier == 'quick' else 600))
     a, b = draw(arm), draw(arm)
     mode = draw(st.sampled_from(['unit', 'const', 'free', 'free']))
     if mode == 'unit':
@@ -65,7 +66,8 @@ def sampled(draw, tier):
             'x0': draw(st.integers(0, 4096)), 'y0': draw(st.integers(-32768, 32768)),
             'limit': draw(st.integers(4, a + b + 6)),
             'fit': draw(st.sampled_from(FITS)), 'cost': draw(st.sampled_from(COSTS)),
-            'ref': draw(st.sampled_from(REFS)), 'all_variants': draw(st.integers(0, 4)) == 0}
+            'ref': draw(st.sampled_from(REFS)), 'all_variants': draw(st.integers(0, 4)) == 0 and a + b <= 60,
+            'int64': draw(st.booleans())}
 
 
 def lattice(tier):
@@ -89,6 +91,9 @@ def lattice(tier):
 def oracle(case, rec):
     L = lib.lib()
     pts = build(case)
+    if case.get('int64') and np.all(pts == np.floor(pts)) and float(np.max(np.abs(pts))) < 2 ** 30:
+        pts = pts.astype(np.int64)      # an integer-typed elbow is the same elbow
+        rec.tag('dtype:int64')
     a = case['a']
     n = len(pts)
     x, y = pts[:, 0], pts[:, 1]
